@@ -70,6 +70,15 @@ func H_C08_refresh() {
 			_ = f.s.Send(fixgen.CreateHeartbeat())
 		case 1:
 			_ = f.s.Send(fixgen.CreateTestRequest(string(zz.Bytes(2))))
+		case 3:
+			// retransmission of stored messages requested by the peer
+			_ = f.s.Send(fixgen.CreateHeartbeat())
+			_ = f.h.VerifOut()
+			n0 = zz.NowCount()
+			rr := fixgen.CreateResendRequest(1, 0)
+			setHdr(rr.Header(), peer, me, 2)
+			out := f.serve(wire(rr))
+			zz.Assume(len(out) > 0)
 		default:
 			b, _ := mkInbound(mTestRequest, peer, me, 2) // a reply produced on the inbound path
 			_ = f.serve(b)
@@ -205,4 +214,85 @@ func H_C09_probe() {
 	zz.Assert(zz.And(len(out) == 1, isType(out[0], "1")), "C09: a new silence period after inbound traffic does not start with a TestRequest")
 	id, _ = fieldOf(out[0], "112")
 	zz.Assert(atoi(id) == 2, "C09: second TestRequest does not carry TestReqID 2")
+}
+
+// H_C08_relogon: Logon(N1), Logout exchange, Logon(N2) on one session (the peer logs out and on again
+// over the same connection). Afterwards the session is logged on with interval N (N2 for the
+// acceptor, its own configured interval for the initiator). Under the contract of utils.Timer
+// (TakeTimeout returns T after the last refresh; checked by H_C08_timer) a message emitted on the
+// expiry of a timer armed with T is emitted T after the previous outbound/inbound message, so:
+// mode 0 (C08): a Heartbeat may only be emitted by a timer with T >= N, and some live timer with T <= N emits one;
+// mode 1 (C09): a TestRequest may only be emitted by a timer with T >= N+max(1,N/20), and some live timer with exactly that T emits one.
+// params: [role, n1, n2, mode]
+func H_C08_relogon() {
+	zz.TimerStub(true)
+	role, n1, n2, mode := zz.Param(0), zz.Param(1), zz.Param(2), zz.Param(3)
+	if n1 == 0 {
+		n1 = zz.IntIn(10, 99)
+	}
+	if n2 == 0 {
+		n2 = zz.IntIn(10, 99)
+	}
+	st := memory.NewStorage()
+	var f *fx
+	peer, me := "CLI", "SRV"
+	n := n2
+	if role == 0 {
+		f = newAcceptor(st, 1, 9999, 0, "0")
+		_ = f.logon(peer, me, 1, n1)
+	} else {
+		peer, me = "SRV", "CLI"
+		n = n1
+		f = newInitiator(st, n1, "0", "user", "pw", 0)
+		_ = f.h.VerifOut()
+		_ = f.logon(peer, me, 1, n1)
+	}
+	zz.Assume(f.s.IsLogged())
+	zz.Yield()
+	b, _ := mkInbound(mLogout, peer, me, 2)
+	_ = f.serve(b)
+	zz.Assume(!f.s.IsLogged())
+	_ = f.logon(peer, me, 3, n2)
+	zz.Assume(f.s.IsLogged())
+	_ = f.h.VerifOut()
+	zz.Yield()
+	zz.Reach("relogged")
+	want := int64(time.Second) * int64(n)
+	emitType := "0"
+	if mode == 1 {
+		tol := n / 20
+		if tol < 1 {
+			tol = 1
+		}
+		want = int64(time.Second) * int64(n+tol)
+		emitType = "1"
+	}
+	live := 0
+	for i := 0; i < zz.Timers(); i++ {
+		if !zz.TimerWaiting(i) {
+			continue
+		}
+		to := zz.TimerField(i, "timeout")
+		f.s.changeState(SuccessfulLogged, false)
+		zz.FireTimer(i)
+		zz.Yield()
+		for _, o := range f.h.VerifOut() {
+			if !isType(o, emitType) {
+				continue
+			}
+			if mode == 0 {
+				zz.Assert(to >= want, "C08: after a second logon a Heartbeat is still emitted on the expiry of a timer armed with a shorter interval than the one in force")
+			} else {
+				zz.Assert(to >= want, "C09: after a second logon a TestRequest is still emitted on the expiry of a timer armed with a shorter period than the one in force")
+			}
+			if to <= want {
+				live++
+			}
+		}
+	}
+	if mode == 0 {
+		zz.Assert(live >= 1, "C08: after a second logon no timer armed with the interval in force emits the Heartbeat")
+	} else {
+		zz.Assert(live >= 1, "C09: after a second logon no timer armed with the period in force emits the TestRequest")
+	}
 }
